@@ -3,6 +3,8 @@ package main
 // smtctx: one SMT problem under construction (declarations, assumptions) + symbolic heap state.
 
 import (
+	"regexp"
+	"sync"
 	"fmt"
 	"go/types"
 	"sort"
@@ -66,6 +68,11 @@ type smtctx struct {
 	sortTypes     map[string]types.Type
 	wfAxioms      []string // heap well-formedness facts per version (only added to scripts when a frame guard needs them)
 	needWF        bool
+	declSyms      map[string]bool
+	declSymsN     int
+	assumeSyms    map[int][]string
+	sliceMu       sync.Mutex
+	constLen      map[string]int // slice terms of statically known small length
 	objNames      map[string]bool // terms known to denote whole objects (allocation results)
 }
 
@@ -419,6 +426,136 @@ func (c *smtctx) scriptMode(nAssume int, goal string, getValues []string, satQue
 		sb.WriteString("(get-value (" + strings.Join(getValues, " ") + "))\n")
 	}
 	return sb.String()
+}
+
+// ---- sliced queries
+//
+// Dropping assumptions is sound for a validity query (what is unsatisfiable with fewer assumptions is unsatisfiable
+// with all of them). Large functions produce contexts of several megabytes in which the solvers lose the few facts
+// a goal needs; a slice keeps the assumptions connected to the goal through declared symbols, up to a given number
+// of rounds.
+
+var symRe = regexp.MustCompile(`[A-Za-z_][A-Za-z0-9_!.$]*`)
+
+func (c *smtctx) declaredSymbols() map[string]bool {
+	if c.declSyms != nil && c.declSymsN == len(c.decls) {
+		return c.declSyms
+	}
+	m := map[string]bool{}
+	for _, d := range c.decls {
+		if strings.HasPrefix(d, "(declare-const ") || strings.HasPrefix(d, "(declare-fun ") {
+			f := strings.Fields(d)
+			if len(f) >= 2 {
+				m[f[1]] = true
+			}
+		}
+	}
+	c.declSyms, c.declSymsN = m, len(c.decls)
+	return m
+}
+
+func (c *smtctx) symbolsOf(idx int) []string {
+	if c.assumeSyms == nil {
+		c.assumeSyms = map[int][]string{}
+	}
+	if s, ok := c.assumeSyms[idx]; ok {
+		return s
+	}
+	decl := c.declaredSymbols()
+	seen := map[string]bool{}
+	var out []string
+	for _, m := range symRe.FindAllString(c.assumes[idx], -1) {
+		if decl[m] && !seen[m] {
+			seen[m] = true
+			out = append(out, m)
+		}
+	}
+	c.assumeSyms[idx] = out
+	return out
+}
+
+// slicedScript: the goal with the assumptions (among the first nAssume) reachable from it in `rounds` rounds of
+// symbol sharing. ok is false when the slice is not smaller than the whole.
+func (c *smtctx) slicedScript(nAssume int, goal string, rounds int) (string, bool) {
+	c.sliceMu.Lock()
+	defer c.sliceMu.Unlock()
+	if nAssume > len(c.assumes) {
+		nAssume = len(c.assumes)
+	}
+	decl := c.declaredSymbols()
+	// symbols that occur in a large share of the assumptions (the receiver, the entry heap arrays, the entry block)
+	// connect everything with everything: they do not link
+	freq := map[string]int{}
+	for i := 0; i < nAssume; i++ {
+		for _, s := range c.symbolsOf(i) {
+			freq[s]++
+		}
+	}
+	limit := nAssume / 40
+	if limit < 12 {
+		limit = 12
+	}
+	have := map[string]bool{}
+	for _, m := range symRe.FindAllString(goal, -1) {
+		if decl[m] && freq[m] <= limit {
+			have[m] = true
+		}
+	}
+	in := make([]bool, nAssume)
+	count := 0
+	for r := 0; r < rounds; r++ {
+		var add []string
+		for i := 0; i < nAssume; i++ {
+			if in[i] {
+				continue
+			}
+			syms := c.symbolsOf(i)
+			hit := len(syms) == 0 // closed axioms (no declared symbol) are cheap and always kept
+			for _, s := range syms {
+				if have[s] {
+					hit = true
+					break
+				}
+			}
+			if hit {
+				in[i] = true
+				count++
+				for _, s := range syms {
+					if freq[s] <= limit {
+						add = append(add, s)
+					}
+				}
+			}
+		}
+		for _, s := range add {
+			have[s] = true
+		}
+	}
+	if count*10 >= nAssume*9 {
+		return "", false
+	}
+	var sb strings.Builder
+	sb.WriteString(preludeFixed)
+	for _, d := range c.sortDecls {
+		sb.WriteString(d)
+		sb.WriteString("\n")
+	}
+	for _, d := range c.decls {
+		sb.WriteString(d)
+		sb.WriteString("\n")
+	}
+	if c.needWF {
+		for _, a := range c.wfAxioms {
+			sb.WriteString("(assert " + a + ")\n")
+		}
+	}
+	for i := 0; i < nAssume; i++ {
+		if in[i] {
+			sb.WriteString("(assert " + c.assumes[i] + ")\n")
+		}
+	}
+	sb.WriteString("(assert " + goal + ")\n(check-sat)\n")
+	return sb.String(), true
 }
 
 func sortedKeys[V any](m map[string]V) []string {
